@@ -47,6 +47,8 @@ pub trait BoolKind: Sized + 'static {
 
     /// DDDMP import of `bytes` (same variable numbering as the exporting manager)
     fn import(mref: &MRefOf<Self>, bytes: &[u8]) -> std::io::Result<Vec<Self::F>>;
+    /// DDDMP import with every support variable v of the file mapped to v + `shift`
+    fn import_shifted(mref: &MRefOf<Self>, bytes: &[u8], shift: u32) -> std::io::Result<Vec<Self::F>>;
 
     /// ZBDD set operations (ZBDD only): kind 0 subset0, 1 subset1, 2 change (with `var`); 3 union, 4 intsec, 5 diff
     fn zset(_kind: u32, _f: &Self::F, _g: &Self::F, _var: u32) -> AllocResult<Self::F> {
@@ -60,6 +62,14 @@ macro_rules! export_impl {
             let mut cur: &[u8] = bytes;
             let header = oxidd_dump::dddmp::DumpHeader::load(&mut cur)?;
             let support: Vec<u32> = header.support_var_order().to_vec();
+            mref.with_manager_shared(|m| {
+                oxidd_dump::dddmp::import::<Self::F>(&mut cur, &header, m, support.iter().copied(), <Self::F as BooleanFunction>::not_edge_owned)
+            })
+        }
+        fn import_shifted(mref: &MRefOf<Self>, bytes: &[u8], shift: u32) -> std::io::Result<Vec<Self::F>> {
+            let mut cur: &[u8] = bytes;
+            let header = oxidd_dump::dddmp::DumpHeader::load(&mut cur)?;
+            let support: Vec<u32> = header.support_var_order().iter().map(|&v| v + shift).collect();
             mref.with_manager_shared(|m| {
                 oxidd_dump::dddmp::import::<Self::F>(&mut cur, &header, m, support.iter().copied(), <Self::F as BooleanFunction>::not_edge_owned)
             })
